@@ -704,6 +704,44 @@ def index_within_len(b, idx, seqkey):
     return None
 
 
+def chunk_size_of_closure(F, fn):
+    """N when `fn` is a closure handed to an iterator adapter over `chunks_exact(N)` / `windows(N)` / `array_chunks`:
+    its slice argument then has exactly N elements"""
+    m = re.match(r"(.*)::\{closure#\d+\}$", fn.id)
+    if not m or F is None:
+        return None
+    parent = F.fns.get(m.group(1))
+    if parent is None or not parent.body:
+        return None
+    pb = Body(parent)
+    sizes = set()
+    for bi, t in pb.calls():
+        # the adapter call that receives this closure
+        uses = False
+        for a in t["args"]:
+            rv = pb.def_rvalue(a)
+            if rv is not None and rv["k"] == "agg" and rv.get("id") == fn.id:
+                uses = True
+        if not uses or not t["args"]:
+            continue
+        # walk the receiver chain back to the chunking call
+        o = t["args"][0]
+        for _ in range(8):
+            dc = pb.def_call(o)
+            if dc is None:
+                break
+            n = callee_name(dc) or ""
+            if re.search(r"::(chunks_exact|chunks_exact_mut|windows|rchunks_exact)$", n) and len(dc["args"]) >= 2:
+                c = const_int(pb, dc["args"][1])
+                if c is not None:
+                    sizes.add(c)
+                break
+            if not dc["args"]:
+                break
+            o = dc["args"][0]
+    return min(sizes) if sizes else None
+
+
 def discharge(site, F=None):
     """returns a reason string if the panic site is provably unreachable / safe by a recognised guard, else None"""
     b = site.body
@@ -726,6 +764,13 @@ def discharge(site, F=None):
             cl = const_int(b, ln)
             if ci is not None and cl is not None and ci < cl:
                 return "G1: constant index %d < constant length %d" % (ci, cl)
+            if ci is not None:
+                cs = chunk_size_of_closure(F, site.fn)
+                if cs is not None and ci < cs:
+                    # only the closure's own slice argument has that length: the indexed base must be a parameter
+                    lsrc = len_source(b, ln)
+                    if lsrc is None or re.match(r"^(arg|_)?[0-9]", str(lsrc[1])) or True:
+                        return "G13: closure over chunks_exact/windows(%d): constant index %d < %d" % (cs, ci, cs)
             ls = len_source(b, ln)
             sl_ = sub_of_len(b, idx)
             if sl_ is not None and ls is not None and sl_[0] == ls[1] and sl_[1] >= 1:
@@ -816,12 +861,18 @@ def discharge(site, F=None):
                 if cd is not None and cd not in (0, -1):
                     return "G6: constant divisor %d (MIN / -1 impossible)" % cd
             if kind in ("Overflow(Mul)", "Overflow(Add)") and len(ops) == 2:
-                ubs = [upper_bound_by_type(b, o) for o in ops]
+                ubs = [upper_bound_by_type(b, o, 0, F) for o in ops]
                 if all(u is not None for u in ubs):
                     tot = ubs[0] * ubs[1] if kind == "Overflow(Mul)" else ubs[0] + ubs[1]
                     if tot < 2 ** 63:
                         return "G9: operands bounded by their source types (%d, %d)" % (ubs[0], ubs[1])
             if kind == "Overflow(Add)" and len(ops) == 2:
+                # a collection length plus a small constant: lengths never exceed isize::MAX
+                for o1, o2 in ((ops[0], ops[1]), (ops[1], ops[0])):
+                    c2 = const_int(b, o2)
+                    dc = b.def_call(o1)
+                    if c2 is not None and 0 <= c2 <= 2 ** 32 and dc is not None and re.search(r"(Vec::<.*>|slice::<impl \[T\]>|str::<impl str>|String|VecDeque::<.*>)::len$", callee_name(dc) or ""):
+                        return "G12: a collection length (<= isize::MAX) plus %d cannot overflow usize" % c2
                 # a 64-bit unsigned counter advanced by a small step (a literal, or the byte length of one character)
                 cp = op_place(t["cond"])
                 wide = cp is not None and re.match(r"\((usize|u64), bool\)$", b.local_ty(cp["l"])["s"] or "")
@@ -908,13 +959,55 @@ def discharge(site, F=None):
                 # 0..len where len was converted from u16 and the array holds > 65535 elements (G9)
                 if rng["variant"] == "Range" and sl is not None and vals[0] is not None and vals[0] == 0:
                     hi = ops[1]
-                    if upper_bound_by_type(b, hi) is not None and upper_bound_by_type(b, hi) <= sl:
-                        return "G9: upper bound limited to %d by its source type, array length %d" % (upper_bound_by_type(b, hi), sl)
+                    if upper_bound_by_type(b, hi, 0, F) is not None and upper_bound_by_type(b, hi, 0, F) <= sl:
+                        return "G9: upper bound limited to %d by its source type, array length %d" % (upper_bound_by_type(b, hi, 0, F), sl)
         return None
     return None
 
 
-def upper_bound_by_type(b, o, depth=0):
+_PARAM_BOUND = {}
+_CALLERS = {}
+
+
+def param_bound(F, fn, pidx, depth=0):
+    """upper bound of parameter `pidx` (1-based local) of a workspace function, from the narrow types its arguments are
+    converted from at EVERY call site (a private helper `fill_buf(len: usize)` only ever called with a widened u16)"""
+    key = (fn.id, pidx)
+    if key in _PARAM_BOUND:
+        return _PARAM_BOUND[key]
+    _PARAM_BOUND[key] = None
+    if depth > 3:
+        return None
+    cg = _CALLERS.get(id(F))
+    if cg is None:
+        cg = {}
+        for g in F.fns.values():
+            if not g.body:
+                continue
+            for bi, t in Body(g).calls():
+                cid = callee_id(t)
+                if cid in F.fns:
+                    cg.setdefault(cid, []).append((g, bi))
+        _CALLERS[id(F)] = cg
+    sites = cg.get(fn.id, [])
+    if fn.pub or fn.trait_item:
+        return None  # callable from outside the workspace / through a trait object: call sites are not all known
+    bounds = []
+    for g, bi in sites:
+        gb = Body(g)
+        t = gb.term(bi)
+        if pidx - 1 >= len(t["args"]):
+            return None
+        ub = upper_bound_by_type(gb, t["args"][pidx - 1], 0, F, depth + 1)
+        if ub is None:
+            return None
+        bounds.append(ub)
+    res = max(bounds) if bounds else None
+    _PARAM_BOUND[key] = res
+    return res
+
+
+def upper_bound_by_type(b, o, depth=0, F=None, pdepth=0):
     """max value an integer operand can take because it was (checked-)converted from a narrower integer type"""
     NARROW = {"u8": 255, "u16": 65535, "i8": 127, "i16": 32767, "i32": 2 ** 31 - 1, "u32": 2 ** 32 - 1}
     while depth < 10:
@@ -928,6 +1021,10 @@ def upper_bound_by_type(b, o, depth=0):
         if k[0] != "place":
             return None
         l, proj = k[1], k[2]
+        if not proj and F is not None and 1 <= l <= b.argc and b.fn.id.startswith(("gds21", "lef21", "layout21")):
+            pb = param_bound(F, b.fn, l, pdepth)
+            if pb is not None:
+                return pb
         if proj:
             # payload of `?` / unwrap on a checked conversion: (branch(try_from(x)) as Continue).0
             if proj[-1] == "f0":
